@@ -214,4 +214,91 @@ theorem page_start_block_aligned (cnt seg idx bs psz : Nat) (hseg0 : seg % 33554
     · omega
     · rfl
 
+/-- the page-size part of the generated function: what is left of the page's slices after the start offset -/
+theorem page_size_eq (cnt seg idx bs psz : Nat) (hseg : seg + 33554432 < 2^64) (hidx : idx < 512) (hp : psz ≠ 0) :
+    (_mi_segment_page_start_from_slice cnt seg (seg + 288 + idx * 96) bs psz).2 =
+      ((cnt * 65536) % 18446744073709551616 + 18446744073709551616
+        - startOffset (seg + idx * 65536) ((cnt * 65536) % 18446744073709551616) bs) % 18446744073709551616 := by
+  have h64 : (2:Nat)^64 = 18446744073709551616 := by decide
+  have hseg' := hseg; rw [h64] at hseg'
+  have e1 : (idx * 65536) % 18446744073709551616 = idx * 65536 := Nat.mod_eq_of_lt (by omega)
+  have e2 : (seg + idx * 65536) % 18446744073709551616 = seg + idx * 65536 := Nat.mod_eq_of_lt (by omega)
+  unfold _mi_segment_page_start_from_slice startOffset
+  simp only [slice_index seg idx hseg hidx, e1, e2, if_pos hp]
+
+/-- the start offset never exceeds the page's slices -/
+theorem startOffset_le (pstart psize bs : Nat) (hps : 65536 ≤ psize) (hps2 : psize ≤ 33554432) (h16 : psize % 16 = 0) :
+    startOffset pstart psize bs ≤ psize := by
+  unfold startOffset
+  simp only []
+  -- the offset before rounding
+  generalize hso1 : (if (bs > 0) ∧ (bs ≤ 65536) then
+    (if ((bs + 18446744073709551616 - (pstart % bs)) % 18446744073709551616 < bs) ∧ (psize ≥ ((bs + (bs + 18446744073709551616 - (pstart % bs)) % 18446744073709551616) % 18446744073709551616)) then
+      ((0 + (bs + 18446744073709551616 - (pstart % bs)) % 18446744073709551616) % 18446744073709551616) else 0) else 0) = so1
+  have hb1 : so1 = 0 ∨ (0 < bs ∧ bs ≤ 65536 ∧ so1 < bs ∧ bs + so1 ≤ psize) := by
+    rw [← hso1]
+    by_cases hbs : (bs > 0) ∧ (bs ≤ 65536)
+    · rw [if_pos hbs]
+      generalize (bs + 18446744073709551616 - (pstart % bs)) % 18446744073709551616 = adj
+      by_cases hc : adj < bs ∧ psize ≥ (bs + adj) % 18446744073709551616
+      · rw [if_pos hc]
+        right
+        have e : (bs + adj) % 18446744073709551616 = bs + adj := Nat.mod_eq_of_lt (by omega)
+        have e0 : (0 + adj) % 18446744073709551616 = adj := by rw [Nat.zero_add]; exact Nat.mod_eq_of_lt (by omega)
+        rw [e] at hc; rw [e0]
+        exact ⟨hbs.1, hbs.2, hc.1, hc.2⟩
+      · rw [if_neg hc]; left; rfl
+    · rw [if_neg hbs]; left; rfl
+  generalize hso2 : (if bs ≥ 8 then (if bs ≤ 64 then ((so1 + ((3 * bs) % 18446744073709551616)) % 18446744073709551616) else (if bs ≤ 512 then ((so1 + bs) % 18446744073709551616) else so1)) else so1) = so2
+  have hb2 : so2 ≤ psize - 15 ∨ so2 ≤ psize ∧ so2 % 16 = 0 ∨ so2 + 15 ≤ psize := by
+    rw [← hso2]
+    rcases hb1 with h0 | ⟨h1, h2, h3, h4⟩
+    · subst h0
+      by_cases h8 : bs ≥ 8
+      · rw [if_pos h8]
+        by_cases h64 : bs ≤ 64
+        · rw [if_pos h64]; left
+          rw [Nat.mod_eq_of_lt (by omega : 3 * bs < 18446744073709551616), Nat.zero_add, Nat.mod_eq_of_lt (by omega)]; omega
+        · rw [if_neg h64]
+          by_cases h512 : bs ≤ 512
+          · rw [if_pos h512]; left; rw [Nat.zero_add, Nat.mod_eq_of_lt (by omega)]; omega
+          · rw [if_neg h512]; left; omega
+      · rw [if_neg h8]; left; omega
+    · by_cases h8 : bs ≥ 8
+      · rw [if_pos h8]
+        by_cases h64 : bs ≤ 64
+        · rw [if_pos h64]; left
+          rw [Nat.mod_eq_of_lt (by omega : 3 * bs < 18446744073709551616), Nat.mod_eq_of_lt (by omega)]; omega
+        · rw [if_neg h64]
+          by_cases h512 : bs ≤ 512
+          · rw [if_pos h512]; left; rw [Nat.mod_eq_of_lt (by omega)]; omega
+          · rw [if_neg h512]; right; right; omega
+      · rw [if_neg h8]; left; omega
+  have hlt : so2 + 16 < 2^64 := by
+    have : (2:Nat)^64 = 18446744073709551616 := by decide
+    rw [this]
+    rcases hb2 with h | h | h <;> omega
+  rw [align_up_eq so2 16 (by decide) hlt]
+  rcases hb2 with h | h | h <;> omega
+
+/-- **the block area ends exactly where the page's slices end**: start + page size = segment + (idx + cnt) · 64 KiB -/
+theorem page_area_end (cnt seg idx bs psz : Nat) (hseg : seg + 33554432 < 2^64) (hidx : idx < 512) (hp : psz ≠ 0)
+    (hcnt : 1 ≤ cnt) (hfit : idx + cnt ≤ 512) :
+    (_mi_segment_page_start_from_slice cnt seg (seg + 288 + idx * 96) bs psz).1 +
+      (_mi_segment_page_start_from_slice cnt seg (seg + 288 + idx * 96) bs psz).2 = seg + (idx + cnt) * 65536 ∧
+    seg + idx * 65536 ≤ (_mi_segment_page_start_from_slice cnt seg (seg + 288 + idx * 96) bs psz).1 := by
+  rw [page_start_eq cnt seg idx bs psz hseg hidx, page_size_eq cnt seg idx bs psz hseg hidx hp]
+  have h64 : (2:Nat)^64 = 18446744073709551616 := by decide
+  rw [h64] at hseg
+  have hps : (cnt * 65536) % 18446744073709551616 = cnt * 65536 := Nat.mod_eq_of_lt (by omega)
+  rw [hps]
+  have hle := startOffset_le (seg + idx * 65536) (cnt * 65536) bs (by omega) (by omega) (by omega)
+  generalize startOffset (seg + idx * 65536) (cnt * 65536) bs = so at hle ⊢
+  have e1 : (seg + idx * 65536 + so) % 18446744073709551616 = seg + idx * 65536 + so := Nat.mod_eq_of_lt (by omega)
+  have e2 : (cnt * 65536 + 18446744073709551616 - so) % 18446744073709551616 = cnt * 65536 - so := by
+    have : cnt * 65536 + 18446744073709551616 - so = (cnt * 65536 - so) + 18446744073709551616 := by omega
+    rw [this, Nat.add_mod_right]; exact Nat.mod_eq_of_lt (by omega)
+  rw [e1, e2, Nat.add_mul]
+  omega
+
 end PageStartL
